@@ -675,6 +675,11 @@ func (ev *Evaluator) lookup(name string) Val {
 			}
 		}
 	}
+	if strings.HasPrefix(name, "Err") {
+		c := ev.E.D.Const("err_"+sanitize(name), SInt)
+		ev.E.D.Axiom(fmt.Sprintf("(and (> %s 0) (< %s 900))", c.S, c.S))
+		return c
+	}
 	if strings.HasPrefix(name, "g_") {
 		ev.E.declKeys()
 		return ev.E.D.Const(name, SBytes)
